@@ -12,6 +12,7 @@ import BufrModel.Drv.ScriptOp
 import BufrModel.Drv.SectionsOp
 import BufrModel.Drv.SubsetOp
 import BufrModel.Drv.TemplateOp
+import BufrModel.Drv.CacheOp
 open Lean Bufr.Drv
 
 /-- stateless operations: one line per op -/
@@ -28,6 +29,7 @@ def statelessOps : List (String × (Json → J Json)) :=
   ("mdquery", opMdQuery) ::
   ("subset", opSubset) ::
   ("normalize", opNormalize) ::
+  ("cache", opCache) ::
   []
 
 /-- operations that read or change the driver state -/
